@@ -15,6 +15,9 @@ use serde_json::{json, Value};
 pub struct Case {
     pub g: G,
     pub xf: Xf,
+    /// when present the case is an ill-conditioned f64 triangle (C03's triples): `g` is then ignored
+    #[serde(default)]
+    pub sliver: Option<[(f64, f64); 3]>,
 }
 
 pub struct C06;
@@ -212,9 +215,10 @@ impl Property for C06 {
     const ID: &'static str = "C06";
     fn strategy(_tier: Tier) -> BoxedStrategy<Case> {
         let tree = member_strategy().prop_recursive(3, 12, 4, |inner| proptest::collection::vec(inner, 0..4).prop_map(G::Coll));
-        (prop_oneof![3 => member_strategy(), 4 => tree], any::<u32>(), xf_strategy())
-            .prop_map(|(g, flips, xf)| Case { g: flip_rings(&g, flips), xf })
-            .boxed()
+        let lattice = (prop_oneof![3 => member_strategy(), 4 => tree], any::<u32>(), xf_strategy()).prop_map(|(g, flips, xf)| Case { g: flip_rings(&g, flips), xf, sliver: None });
+        // 1 case in 16: triangles whose area sits in the last bits (as Triangle, as Polygon, inside a collection)
+        let sliver = crate::props::c03::triple_strategy().prop_map(|t| Case { g: G::MultiPoint(vec![]), xf: Xf::ID, sliver: Some(t) });
+        prop_oneof![15 => lattice.boxed(), 1 => sliver.boxed()].boxed()
     }
     fn quota(tier: Tier) -> u64 {
         tier.pick(3_000_000, 60_000_000)
@@ -240,6 +244,10 @@ impl Property for C06 {
         json!({"g": wkt(&c.g), "xf": c.xf})
     }
     fn check(c: &Case, obs: &mut Obs) {
+        if let Some(t) = &c.sliver {
+            check_sliver(t, obs);
+            return;
+        }
         let gg = to_geo(&c.g, &c.xf);
         let tn = c.g.type_name();
         obs.label(format!("type:{tn}"));
@@ -329,6 +337,66 @@ impl Property for C06 {
                 };
                 obs.expect(inside, &format!("centroid:{tn}|outside-hull"), || format!("got ({}, {}) = local ({lx}, {ly}); hull {:?}; {}", p.x(), p.y(), h, ctx()));
             }
+        }
+    }
+}
+
+
+/// The centroid of a (possibly very thin, possibly exactly flat) triangle is a finite point within rounding of the triangle:
+/// for a triangle with area it is the vertex mean, in every case it lies in the hull. Tolerance: 64 ulp of the largest ordinate.
+fn check_sliver(t: &[(f64, f64); 3], obs: &mut Obs) {
+    use geo::{Geometry, GeometryCollection, InteriorPoint, LineString, Polygon, Triangle};
+    obs.label("sub:sliver");
+    let in_range = |v: f64| v == 0.0 || (v.is_finite() && v.abs() >= 2f64.powi(-400) && v.abs() <= 2f64.powi(400));
+    if !t.iter().all(|p| in_range(p.0) && in_range(p.1)) {
+        obs.label("skipped:out-of-domain");
+        return;
+    }
+    let o = crate::exact::big::orient_f64(t[0], t[1], t[2]);
+    let naive = (t[1].0 - t[0].0) * (t[2].1 - t[0].1) - (t[1].1 - t[0].1) * (t[2].0 - t[0].0);
+    if o != 0 && naive == 0.0 {
+        obs.label("sliver:area-rounds-to-zero");
+        obs.nontrivial();
+    }
+    let co = |p: (f64, f64)| Coord { x: p.0, y: p.1 };
+    let maxabs = t.iter().fold(0.0f64, |m, p| m.max(p.0.abs()).max(p.1.abs()));
+    let tol = 64.0 * ulp(maxabs);
+    let seg = |p: (f64, f64), a: (f64, f64), b: (f64, f64)| -> f64 {
+        let (dx, dy) = (b.0 - a.0, b.1 - a.1);
+        let l2 = dx * dx + dy * dy;
+        let u = if l2 == 0.0 { 0.0 } else { (((p.0 - a.0) * dx + (p.1 - a.1) * dy) / l2).clamp(0.0, 1.0) };
+        (p.0 - a.0 - u * dx).hypot(p.1 - a.1 - u * dy)
+    };
+    // distance from q to the (closed) triangle: 0 when exactly inside, else to the nearest side
+    let dist_to_tri = |q: (f64, f64)| -> f64 {
+        let s: Vec<i32> = (0..3).map(|i| crate::exact::big::orient_f64(t[i], t[(i + 1) % 3], q)).collect();
+        if o != 0 && s.iter().all(|v| *v == 0 || (*v > 0) == (o > 0)) {
+            return 0.0;
+        }
+        (0..3).map(|i| seg(q, t[i], t[(i + 1) % 3])).fold(f64::INFINITY, f64::min)
+    };
+    let tri = Triangle(co(t[0]), co(t[1]), co(t[2]));
+    let poly = Polygon::new(LineString::new(vec![co(t[0]), co(t[1]), co(t[2]), co(t[0])]), vec![]);
+    let gc = GeometryCollection::new_from(vec![Geometry::Triangle(tri)]);
+    let ctx = || format!("{:?} bits {:?} exact orientation {o}", t, t.map(|p| (p.0.to_bits(), p.1.to_bits())));
+    let results: Vec<(&str, Result<Option<(f64, f64)>, crate::engine::PanicInfo>)> = vec![
+        ("centroid:Triangle", guard(std::panic::AssertUnwindSafe(|| { let p = tri.centroid(); Some((p.x(), p.y())) }))),
+        ("centroid:Polygon", guard(std::panic::AssertUnwindSafe(|| poly.centroid().map(|p| (p.x(), p.y()))))),
+        ("centroid:GeometryCollection[Triangle]", guard(std::panic::AssertUnwindSafe(|| gc.centroid().map(|p| (p.x(), p.y()))))),
+        ("interior_point:Triangle", guard(std::panic::AssertUnwindSafe(|| { let p = tri.interior_point(); Some((p.x(), p.y())) }))),
+    ];
+    for (name, r) in results {
+        match r {
+            Ok(Some(q)) => {
+                obs.cmp();
+                obs.expect(q.0.is_finite() && q.1.is_finite(), &format!("{name}|sliver|not-finite"), || format!("got {:?}; {}", q, ctx()));
+                if q.0.is_finite() && q.1.is_finite() {
+                    let d = dist_to_tri(q);
+                    obs.expect(d <= tol, &format!("{name}|sliver|outside-the-hull"), || format!("got {:?}, {d} from the triangle (tol {tol}); {}", q, ctx()));
+                }
+            }
+            Ok(None) => obs.fail(format!("{name}|sliver|none-for-nonempty"), ctx()),
+            Err(p) => obs.fail(format!("{name}|sliver|panic|{}", p.site()), format!("{} {}", p, ctx())),
         }
     }
 }
